@@ -104,7 +104,8 @@ void harness(void)
 	if (g_in_err || g_codec_err)
 		VERIF_ASSERT(ret < 0, "C15.in.fail");
 	else if (ret < 0)
-		VERIF_ASSERT(g_eofseen && g_open, "C15.in.fail");
+		VERIF_ASSERT(g_eofseen && g_open && g_last_p == 0 &&
+			     g_last_mode == XFRM_STREAM_FLUSH_FULL, "C15.in.fail");
 	if (enough0)
 		VERIF_ASSERT(g_ncalls == 0 && g_gets == 0 && g_moves == 0 &&
 			     g_x.buffer_offset == g_off0 &&
